@@ -924,3 +924,25 @@ pub fn off_path_challenge_native(n: u8) -> u32 {
     assert!(sent <= 3 * received + 1200, "{} bytes sent to an off-path address that sent {} bytes", sent, received);
     1
 }
+
+/// Native replay body for the E2 queries `e2_handle_coalesced_credit` / `e2_handle_coalesced_loop_body_slice`
+/// (C07): a datagram made of k + 1 coalesced (undecryptable) long-header stubs arrives at a server whose
+/// path is not validated.  The anti-amplification credit grows by exactly the datagram's length - not by
+/// more, however many packets it is cut into.
+pub fn handle_coalesced_credit_native(k: u8) -> u32 {
+    let mut conn = mk_conn(true, false);
+    conn.path.validated = false;
+    let now = crate::verif::mk_instant(51, 0).unwrap();
+    let stub = [0xd0u8, 0, 0, 0, 1, 0, 0, 0];
+    let mut v = Vec::new();
+    for _ in 0..=k {
+        v.extend_from_slice(&stub);
+    }
+    let total = v.len() as u64;
+    let before = conn.path.total_recvd;
+    let (first_decode, remaining) = PartialDecode::new(BytesMut::from(&v[..]), &FixedLengthConnectionIdParser::new(8), &[1], true).ok().expect("stub decodes");
+    assert!(remaining.is_some() == (k > 0));
+    conn.handle_event(ConnectionEvent(ConnectionEventInner::Datagram(DatagramConnectionEvent { now, remote: addr(1, 4433), ecn: None, first_decode, remaining })));
+    assert!(conn.path.total_recvd == before + total, "a {}-byte datagram was credited as {} bytes", total, conn.path.total_recvd - before);
+    1
+}
